@@ -15,6 +15,7 @@ keeps id / ty / sp and records the rule in `nf`):
   NF6  0..n, 0..=n                                       -> ..n, ..=n
   NF7  x = x + e  (and - * / % & | ^ << >>)              -> x += e
   NF8  a named constant array of integers                -> the array literal
+  NF9  unsigned x / 2^k, x % 2^k, x * 2^k                -> x >> k, x & (2^k - 1), x << k
   NF10 let f = match s { A => e1, .. }; if f { X }  (f used once) -> match s { A => if e1 { X }, .. }
 """
 from . import hir as H
@@ -160,6 +161,18 @@ class Normalizer:
             ty = n.get("ty")
             if v is not None and (_fits(v, ty) if ty in INT_BITS else 0 <= v < (1 << 64)):
                 return _lit(v, n, "NF2")
+        # NF9: unsigned x / 2^k -> x >> k ; x % 2^k -> x & (2^k - 1) ; x * 2^k -> x << k   (value-preserving where the
+        # product does not overflow; the overflow behaviour of `*` is not what the layout / bound rules read)
+        if op in ("/", "%", "*") and (_unsigned(n["l"]) or _unsigned(n["r"]) or _unsigned(n)):
+            lit, other = (b, n["l"]) if b is not None else ((a, n["r"]) if (a is not None and op == "*") else (None, None))
+            if lit is not None and lit >= 2 and lit & (lit - 1) == 0:
+                k_ = lit.bit_length() - 1
+                like = n["r"] if b is not None else n["l"]
+                if op == "/":
+                    return dict(n, op=">>", l=other, r=_lit(k_, like, "NF9"), nf="NF9")
+                if op == "%":
+                    return dict(n, op="&", l=other, r=_lit(lit - 1, like, "NF9"), nf="NF9")
+                return dict(n, op="<<", l=other, r=_lit(k_, like, "NF9"), nf="NF9")
         if op in FLIP:
             n = dict(n, op=FLIP[op], l=n["r"], r=n["l"], nf="NF5")
             op = n["op"]
